@@ -53,6 +53,7 @@ func (ex *Exec) setResult(st *State, fr *Frame, dst ssa.Value, v Value) {
 func (ex *Exec) callFunc(st *State, fr *Frame, ins ssa.Instruction, f *ssa.Function, bind []Value, args []Value, dst ssa.Value, c *ssa.CallCommon) {
 	name := f.String()
 	if ex.Specs != nil {
+		ex.checkCallbackFrames(st, fr, ins, f, ex.Specs.Contracts[name], args)
 		if ct := ex.Specs.Contracts[name]; ct != nil && ex.useContract(name) && !(f == ex.entry && len(st.Frames) == 1 && false) {
 			ex.applyContract(st, fr, ins, f, ct, args, dst)
 			return
